@@ -447,3 +447,80 @@ func g17StaleArgTypes(r *Repo, rep *Report) {
 	rep.fail(Finding{Rule: "G17", Key: "G17|stale-arg-types", Where: []string{r.pos(fi.Decl.Pos())},
 		Msg: "the argument types a call is registered with come from TypeOf(arg) and nothing that decides whether they are known yet looks at whether the argument contains a call into derived.gen.go: for deriveSort(deriveKeys(m)) the type of deriveKeys(m) is read from the previous output, so after m is retyped the outer function is generated for the stale type (one run does not suffice and the result does not type-check)"})
 }
+
+// g18CallOrder — the order in which a file's calls are registered decides the order of the generated functions and the
+// numbering of helper names. It must be the source order, independent of whether a call was undefined or already resolved
+// into the previous derived.gen.go: every recording site of (*finder).Visit appends the call to one and the same list (so
+// the list is in visit order), and newPackage does not concatenate classified sub-lists.
+func g18CallOrder(r *Repo, rep *Report) {
+	visit := r.lookup("derive.(*finder).Visit")
+	np := r.lookup("derive.newPackage")
+	if visit == nil || np == nil {
+		rep.fail(Finding{Rule: "G18", Key: "G18|call-order|missing", Kind: "undecided", Msg: "(*finder).Visit / newPackage not found"})
+		return
+	}
+	lists := map[string]bool{}
+	n := 0
+	ast.Inspect(visit.Decl.Body, func(m ast.Node) bool {
+		as, ok := m.(*ast.AssignStmt)
+		if !ok || len(as.Lhs) != 1 || len(as.Rhs) != 1 {
+			return true
+		}
+		c, ok := as.Rhs[0].(*ast.CallExpr)
+		if !ok || exprStr(c.Fun) != "append" || len(c.Args) != 2 || exprStr(c.Args[0]) != exprStr(as.Lhs[0]) {
+			return true
+		}
+		if t := visit.Pkg.TypesInfo.TypeOf(c.Args[1]); t == nil || !strings.HasSuffix(t.String(), "ast.CallExpr") {
+			return true
+		}
+		n++
+		lists[exprStr(as.Lhs[0])] = true
+		return true
+	})
+	rep.analysed("call_recording_sites", n)
+	if n < 2 {
+		rep.fail(Finding{Rule: "G18", Key: "G18|call-order|floor", Kind: "undecided", Where: []string{r.pos(visit.Decl.Pos())}, Msg: "fewer call-recording sites in (*finder).Visit than confirmed by hand (undefined callee; callee defined in derived.gen.go)"})
+		return
+	}
+	if len(lists) == 1 {
+		rep.pass("G18")
+		for l := range lists {
+			rep.sample(map[string]string{"rule": "G18 calls recorded in one list, in visit order", "list": l, "sites": fmt.Sprint(n)})
+		}
+	} else {
+		var ls []string
+		for l := range lists {
+			ls = append(ls, l)
+		}
+		sortStrings(ls)
+		rep.fail(Finding{Rule: "G18", Key: "G18|call-order|classified-lists", Where: []string{r.pos(visit.Decl.Pos())},
+			Msg: fmt.Sprintf("(*finder).Visit records calls in %d separate lists (%s) according to whether the callee is undefined or defined in the previous derived.gen.go: whatever order they are processed in, the order of generated functions and the numbering of helper names depend on the previous output (adding a call below an already derived one gives another file than generating from scratch)", len(ls), strings.Join(ls, ", "))})
+	}
+	// newPackage must not splice lists together either
+	info := np.Pkg.TypesInfo
+	bad := false
+	ast.Inspect(np.Decl.Body, func(m ast.Node) bool {
+		c, ok := m.(*ast.CallExpr)
+		if !ok || exprStr(c.Fun) != "append" || !c.Ellipsis.IsValid() || len(c.Args) != 2 {
+			return true
+		}
+		t := info.TypeOf(c.Args[0])
+		if t != nil && strings.Contains(t.String(), "derive.call") {
+			bad = true
+			rep.fail(Finding{Rule: "G18", Key: "G18|call-order|spliced", Where: []string{r.pos(c.Pos())},
+				Msg: "newPackage splices two lists of calls together (" + exprStr(c) + "): the registration order is not the source order"})
+		}
+		return true
+	})
+	if !bad {
+		rep.pass("G18")
+	}
+}
+
+func sortStrings(l []string) {
+	for i := 1; i < len(l); i++ {
+		for j := i; j > 0 && l[j] < l[j-1]; j-- {
+			l[j], l[j-1] = l[j-1], l[j]
+		}
+	}
+}
